@@ -30,7 +30,7 @@ Init == /\ \E tr \in [1..M -> [1..N -> T]], an \in [1..M -> AnyT], c1 \in ChainO
                     cond |-> <<3, 1>>, enter |-> <<3, 1>>, exit |-> <<1, 3>>,
                     on_enter |-> <<TRUE, TRUE>>, on_exit |-> <<TRUE, TRUE>>,
                     on_notrans |-> TRUE, on_output |-> TRUE, chain |-> <<c1, c2>>, xchain |-> <<FALSE, TRUE>>,
-                    hold |-> <<FALSE, h2>>]
+                    hold |-> <<FALSE, h2>>, nbad |-> <<FALSE, FALSE>>]
         /\ st = 0 /\ out = 0
         /\ res = F!Result("none", 0, 0, <<>>)
 Data == [tag : {5}, chain : {0, 1}, cond : {0, 1}, condf : IF ChainMode = "none" THEN {0, 1} ELSE {1}, xc : {0, 1}]
@@ -46,6 +46,6 @@ RejectChangesNothing == [][F!RejectChangesNothing(st, out, res')]_vars
 IntermediateInvisible == [][F!IntermediateInvisible(cfg, out, res')]_vars
 DataOfCausingEvent == F!DataOfCausingEvent(res)
 OrderOfActions == F!OrderOfActions(res)
-ReturnIffAccepted == res.ret \in {"none", "true", "false", "unknown", "error"}
+ReturnIffAccepted == res.ret \in {"none", "true", "false", "unknown", "error", "raised"}
 StateValid == st \in 0..N /\ (res.ret # "error" => (out = st \/ (st # 0 /\ cfg.hold[st])))
 =============================================================================
